@@ -1142,7 +1142,7 @@ fn corrupt(ctx: &mut Ctx, s: &mut Session, other_text: &str) -> Step {
     let text = s.model.fen();
     let (bytes, ops) = corrupt_text(ctx, &text, other_text);
     ctx.stats.bump("fault.corrupt");
-    let r = op(Op::Parse, || chess_movegen::fen::parse_fen(&bytes));
+    let r = op(Op::ParseDamaged, || chess_movegen::fen::parse_fen(&bytes));
     let shown = String::from_utf8_lossy(&bytes).to_string();
     match r {
         Err(e) => {
@@ -1178,7 +1178,7 @@ fn corrupt_builder(ctx: &mut Ctx, s: &mut Session) -> Step {
     // the builder object is re-used: a first board is built from it (and dropped) before the
     // damage is done, so whatever the builder remembers about that build is stale afterwards
     if ctx.tape.choose(2) == 1 {
-        let first = op(Op::Build, || bld.build());
+        let first = op(Op::BuildDamaged, || bld.build());
         ctx.stats.bump("fault.restart.builder-reused-after-build");
         if let Err(e) = &first {
             let n = op(Op::Print, || format!("{e:?}").len());
@@ -1198,7 +1198,7 @@ fn corrupt_builder(ctx: &mut Ctx, s: &mut Session) -> Step {
                 let sqi = ctx.tape.choose(64) as u8;
                 let c = ctx.tape.choose(2) as u8;
                 let k = *ctx.tape.pick(&[m1::P, m1::N, m1::B, m1::R, m1::Q, m1::K]);
-                let _ = op(Op::Build, || bld.place(sut::pos(sqi), sut::color(c), sut::piece(k)).is_ok());
+                let _ = op(Op::BuildDamaged, || bld.place(sut::pos(sqi), sut::color(c), sut::piece(k)).is_ok());
                 ops.push("place");
             }
             2 => {
@@ -1206,7 +1206,7 @@ fn corrupt_builder(ctx: &mut Ctx, s: &mut Session) -> Step {
                 let c = ctx.tape.choose(2) as u8;
                 let k = *ctx.tape.pick(&[m1::P, m1::N, m1::B, m1::R, m1::Q, m1::K]);
                 bld.remove(sut::pos(sqi));
-                let _ = op(Op::Build, || bld.place(sut::pos(sqi), sut::color(c), sut::piece(k)).is_ok());
+                let _ = op(Op::BuildDamaged, || bld.place(sut::pos(sqi), sut::color(c), sut::piece(k)).is_ok());
                 ops.push("replace");
             }
             3 => {
@@ -1227,7 +1227,7 @@ fn corrupt_builder(ctx: &mut Ctx, s: &mut Session) -> Step {
     }
     ctx.stats.bump("fault.corrupt.builder");
     let ops = ops.join("+");
-    match op(Op::Build, || bld.build()) {
+    match op(Op::BuildDamaged, || bld.build()) {
         Err(_) => {
             ctx.stats.bump("c06.builder-rejected");
             Ok(())
